@@ -52,6 +52,49 @@ def to_smt2(ob: Obligation) -> str:
     return s.to_smt2()
 
 
+def _fp_slice(zz: Any, asserts: list[Any]) -> tuple[list[Any], list[Any]] | None:
+    """FloatingPoint queries only: split the assertions into the part that shares uninterpreted symbols
+    (transitively) with the last one (the negated goal) and the rest.  The two parts have disjoint
+    symbols, so the query is sat iff both are; z3 bit-blasts a pure QF_FP part, while any unrelated Int
+    atom in the same query sends it to the (much slower) lazy theory combination."""
+    info = []
+    any_fp = False
+    for a in asserts:
+        names: set[str] = set()
+        seen: set[int] = set()
+        stack = [a]
+        while stack:
+            x = stack.pop()
+            if x.get_id() in seen:
+                continue
+            seen.add(x.get_id())
+            if zz.is_quantifier(x):
+                stack.append(x.body())
+                continue
+            if zz.is_app(x):
+                if x.decl().kind() == zz.Z3_OP_UNINTERPRETED:
+                    names.add(x.decl().name())
+                if x.sort().kind() == zz.Z3_FLOATING_POINT_SORT:
+                    any_fp = True
+                stack.extend(x.children())
+        info.append(names)
+    if not any_fp:
+        return None
+    reach = set(info[-1])
+    inside = {len(asserts) - 1}
+    changed = True
+    while changed:
+        changed = False
+        for i, names in enumerate(info):
+            if i not in inside and names & reach:
+                inside.add(i)
+                reach |= names
+                changed = True
+    if len(inside) == len(asserts):
+        return None
+    return [asserts[i] for i in sorted(inside)], [a for i, a in enumerate(asserts) if i not in inside]
+
+
 def _z3_worker(conn: Any) -> None:
     import z3 as zz
 
@@ -68,19 +111,37 @@ def _z3_worker(conn: Any) -> None:
             s = zz.Solver()
             s.set("timeout", int(timeout_s * 1000))
             s.from_string(smt2)
-            r = s.check()
-            res = str(r)
-            detail = s.reason_unknown() if res == "unknown" else ""
+            models = []
+            parts = _fp_slice(zz, list(s.assertions()))
+            if parts is None:
+                r = s.check()
+                res = str(r)
+                detail = s.reason_unknown() if res == "unknown" else ""
+                if res == "sat":
+                    models.append(s.model())
+            else:
+                # disjoint-symbol parts: unsat if the goal's part is; sat iff both parts are
+                res, detail = "sat", ""
+                for part in parts:
+                    sp = zz.Solver()
+                    sp.set("timeout", max(1, int((timeout_s - (time.time() - t0)) * 1000)))
+                    sp.add(*part)
+                    rp = str(sp.check())
+                    if rp == "sat":
+                        models.append(sp.model())
+                        continue
+                    res, detail = rp, (sp.reason_unknown() if rp == "unknown" else "")
+                    break
             if res == "sat":
                 # ship the values of all constants so the parent need not re-solve
-                m = s.model()
                 consts = {}
-                for d in m.decls():
-                    if d.arity() == 0:
-                        try:
-                            consts[d.name()] = m[d].sexpr()
-                        except Exception:
-                            pass
+                for m in models:
+                    for d in m.decls():
+                        if d.arity() == 0:
+                            try:
+                                consts[d.name()] = m[d].sexpr()
+                            except Exception:
+                                pass
                 detail = consts
         except Exception as e:  # parse errors etc.
             res, detail = "error", repr(e)
